@@ -518,6 +518,16 @@ func (s *Set) c05() {
 			return
 		}
 	}
+	// one specific history gets its own fingerprint: another revision was published while the cleanup of the completed
+	// release was running; the cleanup erases the new release's in-progress marker, the Rollout becomes Healthy and never
+	// takes the new revision up
+	if s.publishedDuringCleanup && s.phase == "Healthy" {
+		tot, _ := s.podsByImage(v)
+		if held(wl, s.S.Kind) && tot[workloadImage(wl)] == 0 {
+			s.violate("C05", fmt.Sprintf("c05:revision-published-during-cleanup-never-released:%s/%s", s.S.Kind, s.S.Style), fmt.Sprintf("a revision (%s) published while the cleanup of the completed release was running is never released: the Rollout is Healthy, the workload stays held (%s) on pods %v", workloadImage(wl), holdStr(wl, s.S.Kind), tot), nil, s.Projection(v))
+			return
+		}
+	}
 	// user-owned fields back to the user's configuration
 	bad := func(field string, got, want interface{}) {
 		s.violate("C05", fmt.Sprintf("c05:not-restored:%s:%s/%s", field, s.S.Kind, s.S.Style), fmt.Sprintf("after the rollout ended (%s) %s is %v, the user configured %v", exit, field, jsonStr(got), jsonStr(want)), nil, s.Projection(v))
